@@ -212,7 +212,11 @@ func goroutines(g int) int {
 // Create2 runs par2 Create on the simulated disk.
 func (r *Run) Create2(w *World, paths []string, plan []simdisk.Fault, spec SchedSpec) *OpResult {
 	res := r.runOp(w, fmt.Sprintf("create2 S=%d R=%d G=%d", w.S, w.R, w.G), plan, spec, func(res *OpResult) {
-		res.Err = par2.VerifCreate(w.Disk, w.Index, paths, par2.CreateOptions{SliceByteCount: w.S, NumParityShards: w.R, NumGoroutines: w.G})
+		opts := par2.CreateOptions{SliceByteCount: w.S, NumParityShards: w.R, NumGoroutines: w.G}
+		if w.UseDefaults {
+			opts = par2.CreateOptions{}
+		}
+		res.Err = par2.VerifCreate(w.Disk, w.Index, paths, opts)
 		res.HasRes = res.Err == nil
 	})
 	return res
@@ -243,7 +247,11 @@ func (r *Run) Repair2(w *World, index string, g int, doubleCheck bool, plan []si
 // Create1 runs par1 Create.
 func (r *Run) Create1(w *World, index string, paths []string, plan []simdisk.Fault) *OpResult {
 	return r.runOp(w, fmt.Sprintf("create1 V=%d", w.R), plan, SchedSpec{}, func(res *OpResult) {
-		res.Err = par1.VerifCreate(w.Disk, index, paths, par1.CreateOptions{NumParityFiles: w.R})
+		opts := par1.CreateOptions{NumParityFiles: w.R}
+		if w.UseDefaults {
+			opts = par1.CreateOptions{}
+		}
+		res.Err = par1.VerifCreate(w.Disk, index, paths, opts)
 		res.HasRes = res.Err == nil
 	})
 }
